@@ -267,7 +267,19 @@ def c16(cx):
         # two connections (both may be inside a handler while Close waits) with one Close call: the quick tier's share
         # of what the thorough tier does with two callers
         b2 = model_check(cx, "MC_C16", cfg="MC_C16_sched.cfg", consts={"Closers": '{"k1"}', "Conns": '{"c1", "c2"}'})
-        subsample(cx, b2, 1500)
+        def both_in_handlers(steps):
+            # both connections are inside a handler while the Close call waits, before either handler finishes
+            seen = set()
+            for st in steps:
+                a, act = st.get("a"), st.get("act")
+                if act == "CFinish":
+                    return {"c1", "c2", "k"} <= seen
+                if act == "CStart":
+                    seen.add(a)
+                if act == "KWaitBegin":
+                    seen.add("k")
+            return False
+        subsample(cx, b2, 1500, must=both_in_handlers)
         trace, crash = play(cx, b2, "sched2", cmd="sched")
         rejected = [] if crash else validate(cx, trace, "Trace_PgServer")
         judge(cx, b2, trace, rejected, crash, "Trace_PgServer", play_cmd="sched")
